@@ -596,10 +596,13 @@ fn run_sio(v: &[u64]) {
     let mut r = R::default();
     let same = |r: &R, i: (usize, usize), want: &[usize]| {
         let it = r.index(i);
-        vassert!(it.len() == want.len(), "VF:slice_opt.len");
-        for (k, w) in want.iter().enumerate() {
+        let n = it.len();
+        vassert!(n == want.len(), "VF:slice_opt.len");
+        // (positions the read item itself claims to have: `get` must return the element pushed at that position)
+        for (k, w) in want.iter().enumerate().take(n) {
             vassert!(it.get(k) == *w, "VF:slice_opt.get");
         }
+        vassert!(it.iter().count() == n && it.iter().enumerate().all(|(k, e)| e == it.get(k)) && it.is_empty() == (n == 0), "VF:slice_opt.accessors_disagree");
         vassert!(it.iter().eq(want.iter().copied()), "VF:slice_opt.iter");
         vassert!(it.into_owned() == want, "VF:slice_opt.into_owned");
     };
@@ -733,7 +736,7 @@ pub fn harnesses() -> Vec<H> {
     vec![
         H { name: "slice_roundtrip", props: &["C01", "C02", "C20", "C10"], nargs: 10, pre: pre_slice_rt, doms: doms_slice_rt, run: run_slice_rt, panic_ok: false,
             bound: "SliceRegion<MirrorRegion<u8>>: two items of length 0..3, element bytes arbitrary (native: {0,1,255}), seven input forms (slice, Vec, &Vec, &&Vec, [T;N], &[T;N], &&[T;N]), optional reserve_items/reserve_regions in between; twin fed the canonical form", kani: false },
-        H { name: "slice_index_optimized", props: &["C01", "C02", "C03", "C05", "C20"], nargs: 7, pre: pre_sio, doms: doms_sio, run: run_sio, panic_ok: false,
+        H { name: "slice_index_optimized", props: &["C01", "C02", "C03", "C05", "C20", "C13"], nargs: 7, pre: pre_sio, doms: doms_sio, run: run_sio, panic_ok: false,
             bound: "SliceRegion<MirrorRegion<usize>, IndexOptimized>: five inner indices over a 10-value alphabet {0..7, u32::MAX, u32::MAX+1} split into two items at any point (IndexContainer::extend inside one push), three input forms; both items re-read after each push; indices, reads and used bytes compared with a twin fed the same items in the other forms", kani: false },
         H { name: "owned_forms", props: &["C20", "C01", "C02"], nargs: 6, pre: pre_of, doms: doms_of, run: run_of, panic_ok: false,
             bound: "OwnedRegion<u8>: all eight input forms ([T;N], PushIter x2, Vec, &Vec, &&[T], &[T;N], &&[T;N]) versus &[T] on twins; item length 0..3 or 40 (longer than any capacity reached before); region pre-filled with 0..2 items, which are re-read", kani: false },
